@@ -520,6 +520,37 @@ def replay_witnesses(ck, cfgs, opts_by_cfg=None):
                                                                    "event": ev, "steps": w["steps"], "mods": w["mods"]})
 
 
+def replay_known(ck, cfg="hook"):
+    """the pinned witnesses of the open known findings of this property: a behavioural finding is
+    keyed on its exact witness input; it is reported as KNOWN-FINDING while the witness still
+    disagrees with the reference model, and as stale (still exit 0) once it no longer does"""
+    from .checks import modelcheck
+    entries = [k for k in ck.findings.for_property(ck.prop) if k.get("witness", "").startswith("witness/known/")]
+    if not entries:
+        return
+    progs = []
+    for k in entries:
+        w = json.load(open(os.path.join(VERIF, k["witness"])))
+        progs.append({"name": w["name"], "steps": [tuple(s) for s in w["steps"]], "mods": [tuple(m) for m in w["mods"]],
+                      "natives": w.get("natives")})
+    models = modelcheck.run_models(progs)
+    cases = [mk_case("k%d" % i, p["steps"], {"gc": "always", "quarantine": 1, "natives": 1 if p.get("natives") else 0}, p["mods"])
+             for i, p in enumerate(progs)]
+    results = run_batch(cfg, cases, timeout=300)
+    for k, p, m, res in zip(entries, progs, models, results):
+        ck.count("known_witnesses_replayed")
+        differs = "abort" in res or "view" not in m
+        if not differs:
+            for ms, rs in zip(m["view"], res["steps"]):
+                if modelcheck.compare_step(ms, rs):
+                    differs = True
+                    break
+        if differs:
+            ck.known(k.get("id"), k.get("text"))
+        else:
+            print("NOTE: known finding %s no longer reproduces on this tree (stale entry)" % k.get("id"), flush=True)
+
+
 def panics_of(result):
     out = []
     if result.get("harness_panic") or result.get("vm_new") == "panic" or result.get("drop") == "panic":
